@@ -1,0 +1,127 @@
+//! Job gate for deterministic simulation of the code generator.
+//!
+//! Compiled only with `--cfg pilota_verif` and inert unless the environment
+//! variable `VERIF_GATE_SEED` is set. When active, every job of a parallel
+//! region (one module, one crate) parks on entry; once all jobs of the region
+//! have arrived they are released one at a time in the order of a keyed
+//! pseudo-random function of (seed, job key), so the order in which jobs run
+//! is a function of the seed alone and not of the thread pool. Regions nest
+//! (crate -> modules). The release order is appended to `VERIF_GATE_LOG`.
+
+use std::{
+    io::Write,
+    sync::{Arc, Condvar, Mutex},
+    time::{Duration, Instant},
+};
+
+struct State {
+    // (prf, key, ticket)
+    arrived: Vec<(u64, String, usize)>,
+    // tickets in release order, known once every job has arrived
+    order: Option<Vec<usize>>,
+    next: usize,
+}
+
+pub struct Region {
+    n: usize,
+    seed: u64,
+    label: String,
+    state: Mutex<State>,
+    cv: Condvar,
+}
+
+pub struct Gate(Option<Arc<Region>>);
+
+pub struct Guard(Option<Arc<Region>>);
+
+fn seed() -> Option<u64> {
+    std::env::var("VERIF_GATE_SEED").ok()?.parse().ok()
+}
+
+fn prf(seed: u64, key: &str) -> u64 {
+    // FNV-1a over the key, then a splitmix64 finaliser keyed by the seed
+    let mut h = 0xcbf2_9ce4_8422_2325u64 ^ seed;
+    for b in key.as_bytes() {
+        h ^= *b as u64;
+        h = h.wrapping_mul(0x0000_0100_0000_01B3);
+    }
+    let mut z = h.wrapping_add(seed).wrapping_add(0x9E37_79B9_7F4A_7C15);
+    z = (z ^ (z >> 30)).wrapping_mul(0xBF58_476D_1CE4_E5B9);
+    z = (z ^ (z >> 27)).wrapping_mul(0x94D0_49BB_1331_11EB);
+    z ^ (z >> 31)
+}
+
+/// Declare a parallel region of `n` jobs.
+pub fn region(label: &str, n: usize) -> Gate {
+    match seed() {
+        Some(seed) if n > 0 => Gate(Some(Arc::new(Region {
+            n,
+            seed,
+            label: label.to_string(),
+            state: Mutex::new(State {
+                arrived: Vec::with_capacity(n),
+                order: None,
+                next: 0,
+            }),
+            cv: Condvar::new(),
+        }))),
+        _ => Gate(None),
+    }
+}
+
+impl Gate {
+    /// First statement of a job: park until it is this job's turn.
+    pub fn enter(&self, key: &str) -> Guard {
+        let Some(r) = &self.0 else {
+            return Guard(None);
+        };
+        let deadline = Instant::now() + Duration::from_secs(120);
+        let mut st = r.state.lock().unwrap();
+        let ticket = st.arrived.len();
+        st.arrived.push((prf(r.seed, key), key.to_string(), ticket));
+        if st.arrived.len() == r.n {
+            let mut v = st.arrived.clone();
+            v.sort();
+            if let Ok(path) = std::env::var("VERIF_GATE_LOG") {
+                if let Ok(mut f) = std::fs::OpenOptions::new()
+                    .create(true)
+                    .append(true)
+                    .open(path)
+                {
+                    let keys: Vec<&str> = v.iter().map(|x| x.1.as_str()).collect();
+                    let _ = writeln!(f, "{} {}", r.label, keys.join(" "));
+                }
+            }
+            st.order = Some(v.into_iter().map(|x| x.2).collect());
+            r.cv.notify_all();
+        }
+        loop {
+            if let Some(order) = &st.order {
+                if order[st.next] == ticket {
+                    return Guard(Some(r.clone()));
+                }
+            }
+            let now = Instant::now();
+            if now >= deadline {
+                eprintln!(
+                    "VERIF-GATE-TIMEOUT region={} arrived={}/{}",
+                    r.label,
+                    st.arrived.len(),
+                    r.n
+                );
+                std::process::exit(86);
+            }
+            st = r.cv.wait_timeout(st, deadline - now).unwrap().0;
+        }
+    }
+}
+
+impl Drop for Guard {
+    fn drop(&mut self) {
+        if let Some(r) = self.0.take() {
+            let mut st = r.state.lock().unwrap();
+            st.next += 1;
+            r.cv.notify_all();
+        }
+    }
+}
